@@ -147,7 +147,25 @@ def plugins(depth, tsz, mixed=False):
             r["v0"] = src["v0"] + 1000 + (src["v1"] - 2 * (src["v0"] - 1000))
             return r
 
-    return [RSrc, lvl("l1", "src", depth <= 1), lvl("l2", "l1", depth <= 2), lvl("l3", "l2", True), M1, Jn]
+    class Wn(strax.OverlapWindowPlugin):
+        """Overlap-window plugin at the superrun level (its output chunks are cut by the window logic, i.e. Chunk.split
+        with early splitting and re-concatenation on chunks that carry subrun annotations)."""
+        provides = "wn"
+        depends_on = ("l1",)
+        dtype = dt()
+        data_kind = "src"
+        allow_superrun = True
+        chunk_target_size_mb = tsz
+
+        def get_window_size(self):
+            return 30
+
+        def compute(self, src):
+            r = src.copy()
+            r["v0"] += 1000
+            return r
+
+    return [RSrc, lvl("l1", "src", depth <= 1), lvl("l2", "l1", depth <= 2), lvl("l3", "l2", True), M1, Jn, Wn]
 
 
 def gen_case(seed, idx):
@@ -190,7 +208,12 @@ def gen_case(seed, idx):
     tgt = rng.choice(["l1", "l2", "l3"][depth - 1:])
     feats["levels_above"] = ["l1", "l2", "l3"].index(tgt) + 1 - depth
     pre = None
-    if rng.random() < 0.3:
+    if rng.random() < 0.12:
+        tgt = "wn"
+        depth = rng.choice([1, 2])
+        feats["levels_above"] = 2 - depth
+        feats["window_plugin"] = True
+    elif rng.random() < 0.3:
         # two-input plugin at the superrun level; optionally one input is made (and stored) for the superrun first
         tgt = "jn"
         depth = rng.choice([1, 2])
@@ -212,7 +235,10 @@ def context(case, d, **kw):
                        processors=[case["processor"]],
                        config=dict(rows_by_run={k: tuple(tuple(x) for x in v) for k, v in case["rows"].items()},
                                    cuts_by_run={k: tuple(v) for k, v in case["cuts"].items()}),
-                       write_superruns=kw.pop("write_superruns", case["write_superruns"]), timeout=60, **kw)
+                       write_superruns=kw.pop("write_superruns", case["write_superruns"]), timeout=60,
+                       # capacity above the largest lag (a two-input plugin drains its pacemaker, incl. trailing zero-duration
+                       # chunks, before it comes back to the other input)
+                       max_messages=30, **kw)
     return st
 
 
@@ -269,6 +295,8 @@ def run_case(case):
                "multi_chunk_subrun": feats["multi_chunk_subrun"]}
         if feats.get("mixed_input_levels"):
             sig["mixed_input_levels"] = True
+        if feats.get("window_plugin"):
+            sig["window_plugin"] = True
         sig.update(extra)
         if exc is not None:
             sig.update(common.exc_sig(exc))
@@ -277,7 +305,7 @@ def run_case(case):
 
     d = hrun.mktemp("c14-")
     tgt = case["target"]
-    nlevels = 2 if tgt == "jn" else ["l1", "l2", "l3"].index(tgt) + 1
+    nlevels = 2 if tgt in ("jn", "wn") else ["l1", "l2", "l3"].index(tgt) + 1
     completed = False
     try:
         st = context(case, d)
